@@ -1,12 +1,21 @@
 import Bridge.Primitive
+import Bridge.Constant
 import Props.C12
 /-!
-# C12 over the code generated from `_primitive.py`
+# C12 over the code generated from `_attribute.py`, `_primitive.py` and `_expression/_primitive.py`
 
-`SignedIntegerType.inclusive_value_range` and `UnsignedIntegerType.inclusive_value_range` are translated from the working
-tree of /repo on every run.  For every bit length the generated code returns normally with the two's-complement /
-unsigned range, i.e. the range against which `Constant.__init__` checks initializers (`C12.iff` is stated over the same
-`intRange` / `uintRange`).
+Two generated modules, re-translated from the working tree of /repo on every run:
+
+* `Gen.Primitive` (`SignedIntegerType.inclusive_value_range`, `UnsignedIntegerType.inclusive_value_range` on naturals): for every bit
+  length the generated code returns normally with the two's-complement / unsigned range.
+* `Gen.Constant`: `Constant.__init__` itself (which kinds of initialiser are accepted for which type, the one-character rule, the range
+  check, the exceptions), the constructors of the primitive types along their `super().__init__` chain (bit length and cast mode guards,
+  the table of the float limits with its `Fraction` arithmetic), `inclusive_value_range` of the three arithmetic classes, the class
+  hierarchy that decides every `isinstance`, `Rational.is_integer` / `native_value`, `String.native_value`.
+
+`Bridge.genConst ty v` runs the generated code as a definition `<type> NAME = <initialiser>` does: the constructor of the type, then
+`Constant.__init__`.  The theorems below are the statements of C12 about that code: it accepts exactly the initialisers the rule of the
+property admits, stores the initialiser's value itself, and every rejection is an `InvalidDefinitionError` subclass raised on purpose.
 -/
 open Ex Bridge
 
@@ -19,3 +28,150 @@ theorem C12.gen_unsigned_range (n : Nat) :
   rw [gen_uint_range, C12.ranges_unsigned n]
 
 example : Gen.SignedIntegerType.inclusive_value_range 8 = .ok (-128, 127) := by decide
+
+/-- The translated `Constant.__init__` (behind the translated constructor of the type) accepts an initialiser and stores `v'` if and only
+    if the rule of the property holds: for every type descriptor (all widths, both signednesses, both cast modes, legal or not), every
+    value (rationals, booleans, strings, sets). -/
+theorem C12.gen_iff (ty : CTy) (v v' : Val) : genConst ty v = .ok (pyVal v') ↔ Spec.constOk ty v v' := by
+  rw [← C12.iff]
+  constructor
+  · intro h
+    obtain ⟨w, hw, he⟩ := gen_const_ok_inv h
+    -- the model only ever stores scalars, and `pyVal` is injective on them
+    have hsc : ∃ s, w = .sc s := by
+      have hk := (C12.iff ty v w).mp hw
+      rcases ty with _ | ⟨n, m⟩ | ⟨n, m⟩ | ⟨n, m⟩ | _ <;> rcases v with (q | b | cs) | es <;> simp only [Spec.constOk] at hk
+      · exact ⟨_, hk⟩
+      · exact ⟨_, hk.2.2.2⟩
+      · obtain ⟨_, c, _, _, rfl⟩ := hk; exact ⟨_, rfl⟩
+      · exact ⟨_, hk.2.2.2.2⟩
+      · exact ⟨_, hk.2.2.2⟩
+    obtain ⟨s, rfl⟩ := hsc
+    rw [hw, pyVal_sc_inj he.symm]
+  · exact gen_const_ok
+
+example : genConst (.uint 8 .truncated) (.str [97]) = .ok (pyVal (.rat 97)) := by decide +kernel
+
+/-- Every outcome of the translated code is an accepted value or one of four pydsdl exceptions, all of them subclasses of
+    `InvalidDefinitionError` raised on purpose: no `assert` of `Constant.__init__` fails, no attribute is missing, the float table raises
+    no stray `KeyError`, and the translation never leaves its fragment (no float result of `**`, no unjustified narrowing). -/
+theorem C12.gen_total (ty : CTy) (v : Val) :
+    (∃ v', Spec.constOk ty v v' ∧ genConst ty v = .ok (pyVal v')) ∨
+    ((∀ v', ¬ Spec.constOk ty v v') ∧ ∃ cls ∈ rejectionClasses, genConst ty v = .error (.other cls)) := by
+  cases hc : constCheck ty v with
+  | ok v' => exact Or.inl ⟨v', (C12.iff ty v v').mp hc, gen_const_ok hc⟩
+  | error e =>
+    refine Or.inr ⟨fun v' hk => ?_, errName ty v, errName_mem ty v, gen_const_error hc⟩
+    rw [← C12.iff, hc] at hk
+    cases hk
+
+example : (∀ v', ¬ Spec.constOk (.int 8 .truncated) (.rat 1) v') := by
+  intro v' h; simp [Spec.constOk] at h
+
+/-- What an accepted constant stores is the initialiser's own value - never rounded, never converted - except that a one-character ASCII
+    string (accepted for 8-bit unsigned types only) is stored as its code point. -/
+theorem C12.gen_stored_exact (ty : CTy) (v : Val) (w : Py.Value) (h : genConst ty v = .ok w) :
+    w = pyVal v ∨ ∃ c : Nat, ∃ m, ty = .uint 8 m ∧ v = .str [c] ∧ c < 128 ∧ w = .Rational (c : Nat) := by
+  obtain ⟨v', hv', rfl⟩ := gen_const_ok_inv h
+  have hk := (C12.iff ty v v').mp hv'
+  rcases ty with _ | ⟨n, m⟩ | ⟨n, m⟩ | ⟨n, m⟩ | _ <;> rcases v with (q | b | cs) | es <;> simp only [Spec.constOk] at hk
+  · exact Or.inl (by rw [hk])
+  · exact Or.inl (by rw [hk.2.2.2])
+  · obtain ⟨rfl, c, rfl, hc, rfl⟩ := hk
+    exact Or.inr ⟨c, m, rfl, rfl, hc, rfl⟩
+  · exact Or.inl (by rw [hk.2.2.2.2])
+  · exact Or.inl (by rw [hk.2.2.2])
+
+example : genConst (.float 32 .saturated) (.rat (1/3)) = .ok (.Rational (1/3)) := by decide +kernel
+
+/-- The float limits the translated constructor computes (`2**emax * (2 - Fraction(2) ** Fraction(-p))`, exact rational arithmetic) and
+    stores as `_magnitude` are the largest finite values of IEEE 754 binary16 / binary32 / binary64; every other width is an
+    `InvalidBitLengthError`. -/
+theorem C12.gen_float_limits (n : Nat) (cm : Py.CastMode) :
+    Gen.Cst.FloatType.new (n : Int) cm =
+      if n = 16 ∨ n = 32 ∨ n = 64 then
+        .ok (.prim .FloatType { bit_length := some (n : Int), cast_mode := some cm, magnitude := some (Spec.maxFinite n) })
+      else .error (.other "InvalidBitLengthError") := by
+  rw [float_new]
+  by_cases h : n = 16 ∨ n = 32 ∨ n = 64
+  · simp only [h, if_true]
+    rcases h with rfl | rfl | rfl
+    · rw [C12.ranges_float.1]
+    · rw [C12.ranges_float.2.1]
+    · rw [C12.ranges_float.2.2]
+  · simp only [h, if_false]
+
+example : Gen.Cst.FloatType.new 16 .SATURATED =
+    .ok (.prim .FloatType { bit_length := some 16, cast_mode := some .SATURATED, magnitude := some 65504 }) := by
+  have := C12.gen_float_limits 16 .SATURATED
+  simpa [Spec.maxFinite] using this
+
+/-- The range against which the translated `Constant.__init__` checks a float initialiser is `± largest finite value`, both ends
+    included. -/
+theorem C12.gen_float_accepts (n : Nat) (m : CastMode) (q : Rat) (hn : n = 16 ∨ n = 32 ∨ n = 64) :
+    genConst (.float n m) (.rat q) = .ok (.Rational q) ↔ (-Spec.maxFinite n ≤ q ∧ q ≤ Spec.maxFinite n) := by
+  have := C12.gen_iff (.float n m) (.rat q) (.rat q)
+  simp only [pyVal, Spec.constOk] at this
+  rw [this]
+  constructor
+  · rintro ⟨_, h1, h2, _⟩; exact ⟨h1, h2⟩
+  · rintro ⟨h1, h2⟩; exact ⟨hn, h1, h2, trivial⟩
+
+/-- `Constant.__init__` does not tell `byte` / `utf8` from `uint8` (their rejection as constant types is the aggregation check's). -/
+theorem C12.gen_byte_utf8_as_uint8 (o : Py.Obj) (v : Py.Value) :
+    Gen.Cst.Constant.init (.prim .ByteType o) v = Gen.Cst.Constant.init (.prim .UnsignedIntegerType o) v ∧
+    Gen.Cst.Constant.init (.prim .UTF8Type o) v = Gen.Cst.Constant.init (.prim .UnsignedIntegerType o) v :=
+  ⟨init_byte o v, init_utf8 o v⟩
+
+example : (do let t ← Gen.Cst.ByteType.new; Gen.Cst.Constant.init t (.Rational 255)) = .ok (.Rational 255) := by decide +kernel
+
+/-! ### The boundaries, on the generated code -/
+
+-- uint64: the largest value and the first rejected one; int64: the smallest value and the first rejected one
+example : genConst (.uint 64 .saturated) (.rat 18446744073709551615) = .ok (.Rational 18446744073709551615) := by decide +kernel
+example : genConst (.uint 64 .truncated) (.rat 18446744073709551616) = .error (.other "InvalidConstantValueError") := by decide +kernel
+example : genConst (.uint 64 .saturated) (.rat (-1)) = .error (.other "InvalidConstantValueError") := by decide +kernel
+example : genConst (.int 64 .saturated) (.rat (-9223372036854775808)) = .ok (.Rational (-9223372036854775808)) := by decide +kernel
+example : genConst (.int 64 .saturated) (.rat (-9223372036854775809)) = .error (.other "InvalidConstantValueError") := by decide +kernel
+example : genConst (.int 64 .saturated) (.rat 9223372036854775808) = .error (.other "InvalidConstantValueError") := by decide +kernel
+example : genConst (.uint 1 .saturated) (.rat 1) = .ok (.Rational 1) := by decide +kernel
+example : genConst (.uint 1 .saturated) (.rat 2) = .error (.other "InvalidConstantValueError") := by decide +kernel
+-- non-integers are no integer constants
+example : genConst (.int 8 .saturated) (.rat (11/10)) = .error (.other "InvalidConstantValueError") := by decide +kernel
+-- float16 / float32 / float64: the largest finite value, and values just above it (by 1, and by 10^-40)
+example : genConst (.float 16 .saturated) (.rat 65504) = .ok (.Rational 65504) := by decide +kernel
+example : genConst (.float 16 .saturated) (.rat (65504 + 1 / 10 ^ 40)) = .error (.other "InvalidConstantValueError") := by decide +kernel
+example : genConst (.float 16 .truncated) (.rat (-65504)) = .ok (.Rational (-65504)) := by decide +kernel
+example : genConst (.float 16 .truncated) (.rat (-65505)) = .error (.other "InvalidConstantValueError") := by decide +kernel
+example : genConst (.float 32 .saturated) (.rat 340282346638528859811704183484516925440) =
+    .ok (.Rational 340282346638528859811704183484516925440) := by decide +kernel
+example : genConst (.float 32 .saturated) (.rat 340282346638528859811704183484516925441) =
+    .error (.other "InvalidConstantValueError") := by decide +kernel
+-- the float32 limit is far outside float16 (a float16 type that took its limit from the float32 row would accept it)
+example : genConst (.float 16 .saturated) (.rat 340282346638528859811704183484516925440) =
+    .error (.other "InvalidConstantValueError") := by decide +kernel
+example : genConst (.float 64 .saturated) (.rat (Spec.maxFinite 64)) = .ok (.Rational (Spec.maxFinite 64)) := by decide +kernel
+example : genConst (.float 64 .saturated) (.rat (Spec.maxFinite 64 + 1)) = .error (.other "InvalidConstantValueError") := by decide +kernel
+example : genConst (.float 64 .saturated) (.rat (Spec.maxFinite 64 + 1 / 10 ^ 40)) = .error (.other "InvalidConstantValueError") := by
+  decide +kernel
+-- a character: only for 8-bit unsigned types, only ASCII, exactly one
+example : genConst (.uint 8 .saturated) (.str [97]) = .ok (.Rational 97) := by decide +kernel
+example : genConst (.uint 7 .saturated) (.str [97]) = .error (.other "InvalidConstantValueError") := by decide +kernel
+example : genConst (.uint 9 .saturated) (.str [97]) = .error (.other "InvalidConstantValueError") := by decide +kernel
+example : genConst (.int 8 .saturated) (.str [97]) = .error (.other "InvalidConstantValueError") := by decide +kernel
+example : genConst (.uint 8 .saturated) (.str [0x80]) = .error (.other "InvalidConstantValueError") := by decide +kernel
+example : genConst (.uint 8 .saturated) (.str [0xD800]) = .error (.other "InvalidConstantValueError") := by decide +kernel
+example : genConst (.uint 8 .saturated) (.str []) = .error (.other "InvalidConstantValueError") := by decide +kernel
+example : genConst (.uint 8 .saturated) (.str [97, 98]) = .error (.other "InvalidConstantValueError") := by decide +kernel
+-- booleans: for bool, and for bool only
+example : genConst .bool (.bool true) = .ok (.Boolean true) := by decide +kernel
+example : genConst .bool (.rat 1) = .error (.other "InvalidConstantValueError") := by decide +kernel
+example : genConst (.uint 1 .saturated) (.bool true) = .error (.other "InvalidConstantValueError") := by decide +kernel
+example : genConst (.float 16 .saturated) (.bool false) = .error (.other "InvalidConstantValueError") := by decide +kernel
+-- types that cannot be constructed, types that cannot carry a constant, values that are no primitives
+example : genConst (.int 1 .saturated) (.rat 0) = .error (.other "InvalidBitLengthError") := by decide +kernel
+example : genConst (.int 8 .truncated) (.rat 0) = .error (.other "InvalidCastModeError") := by decide +kernel
+example : genConst (.uint 65 .saturated) (.rat 0) = .error (.other "InvalidBitLengthError") := by decide +kernel
+example : genConst (.float 17 .saturated) (.rat 0) = .error (.other "InvalidBitLengthError") := by decide +kernel
+example : genConst .other (.rat 0) = .error (.other "InvalidTypeError") := by decide +kernel
+example : genConst (.uint 8 .saturated) (.set [.rat 1]) = .error (.other "InvalidConstantValueError") := by decide +kernel
